@@ -1,5 +1,6 @@
 """C11 — breakpoints always stop execution before the marked instruction."""
-from ..facts import callee_of, short, sp_file_line, expr_str, place_is_local, op_local
+import re
+from ..facts import callee_of, short, sp_file_line, expr_str, expr_walk, place_is_local, op_local
 from .. import kit, dbg
 from ..effects import Effects
 from ..linear import lin, show, same
@@ -165,6 +166,51 @@ def run(ctx):
     ctx.oblig(ok, {"remove": "retain(|b| b.address != address)"}, "order-preserving filter")
     if not ok:
         ctx.violation("remove-shape", rem.file_line(), "remove is not a retain(address != given): it may disturb the order or keep the breakpoint")
+    # lookup: the answer of `get` depends on the list alone - None only once the whole list has been scanned, Some only for an equal address
+    from ..stages import is_whole_next
+    g = ctx.fn(BP + "::get")
+    ctx.instance(1)
+    none_b = [b for b, i, s_ in g.assigns() if s_["p"]["l"] == 0 and place_is_local(s_["p"]) and s_["r"]["k"] == "agg" and s_["r"].get("variant") == "None"]
+    some_b = [b for b, i, s_ in g.assigns() if s_["p"]["l"] == 0 and place_is_local(s_["p"]) and s_["r"]["k"] == "agg" and s_["r"].get("variant") == "Some"]
+    nexts = [(b, t) for b, t, c in g.calls() if is_whole_next(t, g, "Breakpoint")]
+    why = None
+    if nexts and (none_b or some_b):
+        nb, nt = nexts[0]
+        sw_ = g.term(nt["t"]) if nt.get("t") is not None else None
+        exhausted = None
+        if sw_ and sw_["k"] == "switch":
+            tg_ = {v: x for v, x in sw_["targets"]}
+            exhausted = tg_.get(0)
+        if exhausted is None:
+            why = "the scan's end-of-list edge was not found"
+        else:
+            early = [b for b in none_b if not (b == exhausted or g.dominates(exhausted, b))]
+            if early:
+                why = "it answers None at %s before the list has been scanned to its end" % sp_file_line(g.stmts(early[0])[0].get("sp"))
+        for b in some_b:
+            cons = [expr_str(g.expr(g.term(d)["a"], 8, stop={"named"}), 200) for d in sorted(g.dominators()[b]) if g.term(d)["k"] == "switch" and d != b]
+            if not any("address" in c and "==" in c for c in cons):
+                why = why or "it answers Some without comparing the element's address with the argument"
+    else:
+        e = g.local_expr(0, 12)
+        calls_ = [str(x[1]) for x in expr_walk(e) if x[0] == "call"]
+        if not (any(re.search(r"Iterator>?::find$", c) for c in calls_) and any(c.endswith("::copied") or c.endswith("::cloned") for c in calls_)
+                and not any(re.search(r"::(skip|take|filter|step_by|rev)$", c) for c in calls_)):
+            why = "its shape is neither a scan of the whole list nor iter().find(..).copied()"
+        else:
+            cl = [x for b, t, c in g.calls() for x in t["f"].get("closures", []) if not x.startswith("fn:")]
+            ok_cl = False
+            for cn in cl:
+                cf_ = prog.fns.get(cn)
+                if cf_ is not None:
+                    ce = expr_str(cf_.local_expr(0, 10), 200)
+                    ok_cl = ok_cl or ("address" in ce and "==" in ce)
+            if not ok_cl:
+                why = "the predicate given to find does not compare the element's address with the argument"
+    ctx.oblig(why is None, {"get": "complete search on address equality"}, "None only after the end-of-list edge; Some only under address == argument")
+    if why:
+        ctx.violation("lookup-incomplete", g.file_line(), "Breakpoints::get is not a complete search of the list: %s - a breakpoint that is in the list can be missed "
+                      "(anything it consults besides the list, e.g. a summary or the list's order, is not kept in step by every writer)" % why)
     ctx.finish_rule()
 
     ctx.rule("C11.R3", "the origin is added to the source's breakpoints exactly once, at load time", floor=1)
